@@ -58,6 +58,11 @@ def handle (rep : Report) (ln : Nat) (toks : List String) (obs : String) : Repor
       let mine := match r with | some c => s!"ok {canonCfg c}" | none => "err"
       let rep := rep.bump (match r with | some _ => "cfg.parse_accepted" | none => "cfg.parse_rejected")
       if mine == obs then rep else { rep.msg s!"DIVERGE line={ln} model={mine} impl={obs}" with diverged := rep.diverged + 1 }
+    | some "makeopts" =>
+      -- C17: the options of one GCPMultiEndpoint are not overwritten when another one is built from the
+      -- same caller-owned slice
+      let rep := rep.bump "cfg.dial_options_from_shared_slice"
+      if obs == "aliased=0" then rep else fail rep ln "no_mutation_no_alias"
     | some "roundtrip" =>
       -- C17: the real parser gives back the message that was rendered; and the model agrees on what it is
       let rep := rep.bump "cfg.roundtrip"
